@@ -150,6 +150,31 @@ func c02Gen(r *rand.Rand, tier string) []spec.Case {
 			c.P = spec.MustJSON(cc)
 		}
 	}
+	// the host's handshake carries a ProtocolVersion V for which it registered nothing (Plugins nil, no entry in
+	// VersionedPlugins): V is not offered, a plugin that announces V (it serves V and nothing the host offers) is refused
+	handshakeOnly := func(n int) {
+		for i := 0; i < n; i++ {
+			v := 1 + r.Intn(4)
+			hm := (1 + r.Intn(31)) &^ (1 << uint(v))
+			if hm == 0 {
+				hm = 1 << uint((v+1)%5)
+			}
+			h := subsetOf(hm)
+			pset := []int{v}
+			if i%2 == 1 {
+				// plus versions below v that the host does not offer either
+				for _, w := range subsetOf(((1 << uint(v)) - 1) &^ hm) {
+					pset = append(pset, w)
+				}
+			}
+			add("handshake-only", h, pset, "versioned", pick(r, []string{"versioned", "legacy"}), "")
+			c := &out[len(out)-1]
+			var cc spec.C02Case
+			jsonUnmarshal(c.P, &cc)
+			cc.Host.HandshakeOnly = &v
+			c.P = spec.MustJSON(cc)
+		}
+	}
 	layouts := []string{"versioned", "legacy", "both"}
 	envFor := func(h []int) string {
 		var ss []string
@@ -180,6 +205,7 @@ func c02Gen(r *rand.Rand, tier string) []spec.Case {
 		}
 		relaunch(600)
 		overlap(300)
+		handshakeOnly(200)
 		for hm := 1; hm < 32; hm++ {
 			for pm := 1; pm < 32; pm++ {
 				add("wide-pair", subsetOf(hm), subsetOf(pm), pick(r, layouts), pick(r, layouts), "")
@@ -215,6 +241,7 @@ func c02Gen(r *rand.Rand, tier string) []spec.Case {
 	}
 	relaunch(50)
 	overlap(18)
+	handshakeOnly(12)
 	for i := 0; i < 40; i++ {
 		hm, pm := 1+r.Intn(31), 1+r.Intn(31)
 		for tries := 0; tries < 20 && len(subsetOf(hm&pm)) < 2 && i%4 != 3; tries++ {
@@ -315,6 +342,10 @@ func c02Judge(c spec.Case, evs []spec.Event, d *Death) CaseResult {
 				viol("plugin-not-terminated", fmt.Sprintf("after the incompatible-version failure the plugin process is in state %s", o.StateSoon))
 			}
 		}
+	}
+	if p.Host.HandshakeOnly != nil {
+		res.Class += " handshake-version-not-offered"
+		res.Counters["handshake_only_cases"]++
 	}
 	if p.Host.Overlap != nil {
 		res.Class += fmt.Sprintf(" overlap(best=legacy:%v)", best == *p.Host.Overlap)
